@@ -20,6 +20,8 @@ type flowRef struct {
 	Comment string                         `json:"comment"`
 	Sources map[string]map[string][]string `json:"sources"` // area -> "func | source key" -> required facts ("Kind:label", "heap:Kind")
 	Params  map[string]map[string][]string `json:"params"`  // area -> "func | param#i" -> required facts
+	Relax   []string                       `json:"relaxing_options"` // option constructors documented as unsafe: they switch constraints off
+	RelaxOK map[string]map[string]int      `json:"relaxing_sites"`   // area -> function -> reviewed number of call sites passing such an option
 	FnSites map[string]map[string][]string `json:"fnsites"` // area -> "func | hint-sites" -> "Kind#n": distinct sink sites reached by the function's hint outputs
 	Exempt  map[string]string              `json:"exempt"`  // "func | source key" -> reason (FLOW-SOME exemptions)
 }
@@ -553,6 +555,97 @@ func RunFlow(p *Prog, r *Report, e *flowEngine, area string, scope func(pkg stri
 	}
 }
 
+// relaxSites: per top-level function of the scope, the call sites of constraint-relaxing option constructors.
+func relaxSites(p *Prog, ref *flowRef, scope func(string) bool) (map[string][]token.Pos, map[string]bool) {
+	set := map[string]bool{}
+	for _, n := range ref.Relax {
+		set[n] = false
+	}
+	out := map[string][]token.Pos{}
+	for _, fn := range p.Funcs {
+		if cal := FuncName(fn); fn.Parent() == nil {
+			if _, ok := set[cal]; ok {
+				set[cal] = true
+			}
+		}
+		pk := FuncPkg(fn)
+		if pk == nil || !scope(pk.Path()) || fn.Synthetic != "" {
+			continue
+		}
+		top := fn
+		for top.Parent() != nil {
+			top = top.Parent()
+		}
+		for _, b := range fn.Blocks {
+			for _, ins := range b.Instrs {
+				c, ok := ins.(ssa.CallInstruction)
+				if !ok {
+					continue
+				}
+				cal := c.Common().StaticCallee()
+				if cal == nil {
+					continue
+				}
+				if _, ok := set[FuncName(cal)]; ok {
+					k := Abstract(FuncName(top))
+					out[k] = append(out[k], ins.Pos())
+				}
+			}
+		}
+	}
+	// generic instantiations and curve siblings share a key: count distinct positions
+	for k, ps := range out {
+		seen := map[token.Pos]bool{}
+		var u []token.Pos
+		for _, x := range ps {
+			if !seen[x] {
+				seen[x] = true
+				u = append(u, x)
+			}
+		}
+		sort.Slice(u, func(i, j int) bool { return u[i] < u[j] })
+		out[k] = u
+	}
+	return out, set
+}
+
+// RunRelax (OPT-RELAX): only the reviewed functions pass an option that switches constraints off (unconstrained
+// inputs / outputs of the bit conversions, omitted modulus comparison), and no more often than reviewed.
+func RunRelax(p *Prog, r *Report, area string, scope func(string) bool) {
+	ref, err := loadFlowRef()
+	if err != nil {
+		return // reported by RunFlow
+	}
+	sites, found := relaxSites(p, ref, scope)
+	for n, ok := range found {
+		if !ok {
+			r.Fail("UNRESOLVED", "-", "-", "relaxing-option:"+n, "-", "reviewed constraint-relaxing option constructor no longer exists (renamed?): its call sites cannot be enumerated")
+		}
+	}
+	var ks []string
+	for k := range sites {
+		ks = append(ks, k)
+	}
+	sort.Strings(ks)
+	for _, k := range ks {
+		allowed := ref.RelaxOK[area][k]
+		pkg := k
+		if i := strings.LastIndex(pkg, "."); i > 0 {
+			pkg = strings.TrimLeft(pkg[:i], "(*")
+		}
+		var pos []string
+		for _, x := range sites[k] {
+			pos = append(pos, p.Pos(x))
+		}
+		if len(sites[k]) <= allowed {
+			r.Pass("OPT-RELAX", pkg, k, "relaxing-options", pos[0], fmt.Sprintf("%d reviewed call site(s) pass a constraint-relaxing option (%s)", len(sites[k]), strings.Join(pos, ", ")), true)
+		} else {
+			r.Fail("OPT-RELAX", pkg, k, "relaxing-options", pos[len(pos)-1], fmt.Sprintf("%d call site(s) pass an option documented as unsafe (unconstrained inputs/outputs, omitted modulus check), reviewed: %d — sites: %s. The values concerned are no longer constrained by the conversion itself", len(sites[k]), allowed, strings.Join(pos, ", ")))
+		}
+	}
+	r.Pass("OPT-RELAX", "-", "-", "summary:"+area, "-", fmt.Sprintf("%d option constructors tracked, %d functions of the area use them", len(found), len(ks)), len(ks) > 0)
+}
+
 type pfact struct {
 	f     *fset
 	pkg   string
@@ -671,6 +764,8 @@ func init() {
 		all := map[string]map[string][]string{}
 		allP := map[string]map[string][]string{}
 		allF := map[string]map[string][]string{}
+		allR := map[string]map[string]int{}
+		refNow, _ := loadFlowRef()
 		var areas []string
 		for a := range flowAreas {
 			areas = append(areas, a)
@@ -682,6 +777,13 @@ func init() {
 			}
 			all[a] = emitFlow(p, e, pkgScope(flowAreas[a]...))
 			allF[a] = map[string][]string{}
+			allR[a] = map[string]int{}
+			if refNow != nil {
+				rs, _ := relaxSites(p, refNow, pkgScope(flowAreas[a]...))
+				for k, v := range rs {
+					allR[a][k] = len(v)
+				}
+			}
 			for k, m := range fnSites(collectSources(p, e, pkgScope(flowAreas[a]...))) {
 				if sl := siteList(m); len(sl) > 0 {
 					allF[a][k] = sl
@@ -694,7 +796,7 @@ func init() {
 				}
 			}
 		}
-		b, _ := json.MarshalIndent(map[string]any{"sources": all, "params": allP, "fnsites": allF}, "", " ")
+		b, _ := json.MarshalIndent(map[string]any{"sources": all, "params": allP, "fnsites": allF, "relaxing_sites": allR}, "", " ")
 		fmt.Println(string(b))
 		return 0
 	}
